@@ -20,7 +20,8 @@ META = {
 }
 
 CONFIGS = ['first-use-alt', 'existing-alt', 'top-sticky-first-use', 'collision-1', 'collision-2', 'home-same-volume',
-           'fallback-cross-volume', 'fallback-cross-volume-existing', 'trash-dir-opt', 'orphan-in-the-way']
+           'fallback-cross-volume', 'fallback-cross-volume-existing', 'trash-dir-opt', 'orphan-in-the-way', 'dot-trashinfo-name',
+           'long-name']
 
 
 def scenario(kind, cfg):
@@ -52,9 +53,16 @@ def scenario(kind, cfg):
         args = ['--trash-dir', '/v/custom']
     elif c == 'orphan-in-the-way':
         nodes += [W.d('/v/.Trash-1000/info', 0o700), W.f('/v/.Trash-1000/files/x', 'ORPHAN', 0o644, 2300)]
+    name = 'x'
+    if c == 'dot-trashinfo-name':
+        name = 'holiday.trashinfo'
+        nodes += K.trashed('/v/.Trash-1000', 'holiday', 'd/holiday', '2019-01-01T00:00:00', 'file', 2000)
+    elif c == 'long-name':
+        name = 'L' * 250
+    src = src[:-1] + name
     nodes += K.entry_nodes(kind, src, 1000)
     world = W.W(mounts=K.MOUNTS, cwd=src.rsplit('/', 1)[0], nodes=nodes)
-    step = C('put', args + ['--', 'x'], e, cwd=src.rsplit('/', 1)[0])
+    step = C('put', args + ['--', name], e, cwd=src.rsplit('/', 1)[0])
     return world, step, src
 
 
@@ -126,14 +134,14 @@ def _case(kind, cfg, k):
 def w_crash(kind: int, cfg: int, k: int) -> str:
     """
     pre: PARTITION is None or cfg == PARTITION
-    pre: 0 <= kind < 6 and 0 <= cfg < 10 and 0 <= k < 400
+    pre: 0 <= kind < 6 and 0 <= cfg < 12 and 0 <= k < 400
     post: _ == ''
     """
-    return _case(rt.sel(kind, 6), rt.sel(cfg, 10), rt.sel(k, 400))
+    return _case(rt.sel(kind, 6), rt.sel(cfg, 12), rt.sel(k, 400))
 
 
 def obligations(tier):
-    return [CH('W_crash_point_x_kind_x_config', MOD, 'w_crash', timeout=1800, partitions=list(range(10)), engine='W',
+    return [CH('W_crash_point_x_kind_x_config', MOD, 'w_crash', timeout=1800, partitions=list(range(12)), engine='W',
                regime='selector', encodes=K.PUT_FUNCS + ['shutil.move/copytree/copy2/rmtree, os.makedirs (CPython source over the model)'],
-               stubs=K.STUBS, bounds='crash point k in 0..399 (every run is shorter: checked) x 6 kinds x 10 configurations '
-                                     '(first use, existing dir, sticky .Trash, 1-2 collisions, home, cross-volume fallback, --trash-dir, orphan in the way)')]
+               stubs=K.STUBS, bounds='crash point k in 0..399 (every run is shorter: checked) x 6 kinds x 12 configurations '
+                                     '(first use, existing dir, sticky .Trash, 1-2 collisions, home, cross-volume fallback, --trash-dir, orphan in the way, a name ending in .trashinfo, a 250-byte name)')]
